@@ -18,8 +18,6 @@ PROP = {
   'the socket delivers to the client, in order, what handle_session hands to its writer',
  ],
  'gaps': [
-  'C08_retry_bound_partial: the retry budget bounds only connections that break in their first poll; '
-  'C08_retry_unbounded proves that the full bound is false for the code (known finding F08b)',
   'liveness of wake-ups (tokio/futures poll wake-up loss) and the BatchState/flush logic are not modelled: batching '
   'only decides when write/item events occur; the harness exercises Disabled/Fixed/Dynamic',
   'RoundRobinSenderGroup (backend_conn_num > 1) is not modelled: one BackendNode = one queue machine',
@@ -31,7 +29,8 @@ PROP = {
   'umh_backend event observation: logging Sink/Stream/ConnFactory wrappers, manual polling of the handle_backend '
   'future on a paused current-thread runtime, mirror of timeout_interval for the pe:<tick> event, copy of the '
   'create_conn codec glue over the scripted socket, copy of RecoverableBackendNode::send refusal handling',
-  'tools/extract_backend.py (MAX_BACKEND_RETRY + shape guards of handle_conn_err / handle_conn / handle_backend)',
+  'tools/extract_backend.py (MAX_BACKEND_RETRY + shape guards of handle_conn_err / handle_conn / handle_backend, '
+  'including the connection-lifetime retry count of fix 0e64416)',
  ],
 }
 
@@ -51,9 +50,10 @@ CHECK = {
          'Session: for every event sequence the packets written to the client followed by those queued are exactly '
          'the owed replies of requests 0..k-1 in request order, one each, the rest wait in order; a live session with '
          'all requests completed writes exactly one reply per request; CmdReplySender delivers the first value sent '
-         'or Dropped. NOT proved and false for the code (finding F08b, C08_retry_unbounded): the MAX_BACKEND_RETRY '
-         'budget does not bound retries when connections break after their first poll, so a request can circulate '
-         'unanswered for ever. Tied to the code by replaying, poll by poll, the events observed at the '
+         'or Dropped. Never silence (C08_retry_bounded, after fix 0e64416 of finding F08b): the retry level is at most '
+         'MAX_BACKEND_RETRY, never drops while a task is held and grows by one per connection failure, so a held '
+         'request sees at most 1 + MAX_BACKEND_RETRY exchanges before the failure at the top level (or any time-out) '
+         'answers every held task with an error. Tied to the code by replaying, poll by poll, the events observed at the '
          'ConnFactory/Sink/Stream boundary of the real handle_backend (byte-level scripted socket under the real '
          'RespCodec with arbitrary write capacity, reply fragmentation, stalls, break before/after any request or '
          'reply byte, refused connects, batching Disabled/Fixed/Dynamic, paused clock; packet-level Multi fan-out '
@@ -61,6 +61,6 @@ CHECK = {
          'requests, split writes, out-of-order completions, drops, double sends, half-close, idle time-out).',
  'note': 'Trusted: Lean kernel; model transliterations (checked differentially every run); harness event observation. '
          'At-least-once execution on retry is allowed by the property. backend_conn_num > 1 (round robin over '
-         'several BackendNodes) is outside the model. Known finding F08b: unbounded retry (patch proposal '
-         '.build/patches/f08b.diff).',
+         'several BackendNodes) is outside the model. Finding F08b (unbounded retry) fixed in /repo by 0e64416; '
+         'tools/extract_backend.py pins the repaired shape and corpus/C08/backend.f08b.ops is the regression case.',
 }
